@@ -392,4 +392,58 @@ theorem lead_before_quote (q : Nat) (hq : q = 34 ∨ q = 39) (s1 ctx : Str) (l :
       simp only [colon]; omega_cu
     simp [keyPeek, mkTok, this]
 
+/-! ### a defective unit inside a COMMENT (group gW) -/
+
+theorem Defect1.toEol_step (hD : Defect1 dia c c' reps) (R : Str) (line col : Nat) (acc : Str) (log : List Report) :
+    scanToEol dia (c :: R) line col false acc acceptAll log
+      = scanToEol dia R line (col + 1) false (c' :: acc) acceptAll (reps line (col + 1) ++ log) := by
+  conv => lhs; simp only [scanToEol, bind_eq, pure_eq]
+  rw [L.bind_ok (hD.step line col _ log)]
+  simp only [fixAcc_false, hD.not_eol, if_false]
+
+/-- a comment `#s₁ c s₂` up to its line terminator, `c` the defective unit: the step of the token loop over it -/
+theorem Defect1.comment_step (hD : Defect1 dia c c' reps) (s1 s2 R : Str) (line col : Nat) (log : List Report)
+    (h1 : okUnits dia none s1 = true) (h1e : s1.all (fun x => !isEol x) = true)
+    (h2 : okUnits dia none s2 = true) (h2e : s2.all (fun x => !isEol x) = true) :
+    stepTok dia true 35 (s1 ++ c :: (s2 ++ 10 :: R)) line col acceptAll log
+      = .ok (.skip true ⟨10 :: R, line, col + 1 + colAdd s1 + 1 + colAdd s2⟩) (reps line (col + 1 + colAdd s1 + 1) ++ log) := by
+  have hcls : classOf dia 35 = .hash := by cases dia <;> decide
+  have hscan : scanToEol dia (s1 ++ c :: (s2 ++ 10 :: R)) line (col + 1) false [35] acceptAll log
+      = .ok ⟨s2.reverse ++ (c' :: (s1.reverse ++ [35])), ⟨10 :: R, line, col + 1 + colAdd s1 + 1 + colAdd s2⟩⟩
+          (reps line (col + 1 + colAdd s1 + 1) ++ log) := by
+    have hp := scanToEol_prefix dia (c :: (s2 ++ 10 :: R)) line acceptAll log s1 none [35] (col + 1) h1 trivial h1e
+    simp only [Option.isSome_none] at hp
+    rw [hp, hD.toEol_step]
+    have := scanToEol_ok dia R line acceptAll (reps line (col + 1 + colAdd s1 + 1) ++ log) s2 none
+      (c' :: (s1.reverse ++ [35])) (col + 1 + colAdd s1 + 1) h2 trivial h2e
+    simp only [Option.isSome_none] at this
+    rw [this]
+  unfold stepTok
+  simp only [bind_eq]
+  simp only [pure_eq]
+  have : (metaOfCls (classOf dia 35) != Meta.close && metaOfCls (classOf dia 35) != Meta.ws && !true) = false := by simp
+  rw [this, reportIf_false, L.pure_bind]
+  rw [if_neg (by rw [hcls]; decide), if_neg (by rw [hcls]; decide), if_pos hcls]
+  rw [L.bind_ok hscan]
+  rfl
+
+/-- … the reports of the unit at its line and column, no token, the token loop (whitespace seen) continues at the terminator
+    exactly as behind the clean comment -/
+theorem Defect1.comment (hD : Defect1 dia c c' reps) (s1 s2 R : Str) (line col f : Nat) (log : List Report)
+    (h1 : okUnits dia none s1 = true) (h1e : s1.all (fun x => !isEol x) = true)
+    (h2 : okUnits dia none s2 = true) (h2e : s2.all (fun x => !isEol x) = true) :
+    tokLoop dia (f + 1) true ⟨35 :: (s1 ++ c :: (s2 ++ 10 :: R)), line, col⟩ acceptAll log
+      = tokLoop dia f true ⟨10 :: R, line, col + 1 + colAdd s1 + 1 + colAdd s2⟩ acceptAll (reps line (col + 1 + colAdd s1 + 1) ++ log) := by
+  rw [tokLoop_cons, L.bind_ok (hD.comment_step s1 s2 R line col log h1 h1e h2 h2e)]
+
+/-- … and under the abort-on-error handler the token loop ends with the code of the oldest report of the unit -/
+theorem Defect1.comment_die (hD : Defect1 dia c c' reps) (s1 s2 R : Str) (line col f : Nat) (log d : List Report) (r : Report)
+    (h1 : okUnits dia none s1 = true) (h1e : s1.all (fun x => !isEol x) = true)
+    (h2 : okUnits dia none s2 = true) (h2e : s2.all (fun x => !isEol x) = true)
+    (hr : reps line (col + 1 + colAdd s1 + 1) = d ++ [r]) :
+    tokLoop dia (f + 1) true ⟨35 :: (s1 ++ c :: (s2 ++ 10 :: R)), line, col⟩ dieAll log = .abort r.code (r :: log) := by
+  have hs := hD.comment_step s1 s2 R line col log h1 h1e h2 h2e
+  rw [hr] at hs
+  rw [tokLoop_cons, L.bind_abort (die_of_accept (stepTok_detl dia true 35 _ line col) hs)]
+
 end CifModel.Model.Lexer
